@@ -25,6 +25,16 @@ CLAIMED = {
    text='C06_lookahead: in the lazy run of any chain of machines that release nothing at exhaustion, a row derived from source item j is delivered when at most max(j+1, min S n) items have been read, for all n, S; tied to the code by comparing the real pull/deliver interleaving of counting sources and sinks with the model trace, and by measuring the look-ahead at several lengths up to 1e5 (thorough).',
    note='file-object / csv buffering is not look-ahead; S is read live from iterable_storage.SAMPLE_SIZE',
    ref='6/C06'),
+ 'C07': dict(
+   technique='Lean 4 proof (extended-JSON codec round trip over nested typed values incl. any UTC offset; stream/unstream framing; run/delete history and checkpoint-chain state machines) + ejson/plan correspondence + history oracle on real code',
+   text='C07_ejson_roundtrip is proved by structural induction over all nested values of the claimed domain with the fixed-width date/time formats and the offset arithmetic modelled concretely; C07_stream_unstream for any number of (possibly empty) resources; C07_history / C07_chain_last_wins by induction over histories / chains. Tied to the code by comparing the real tag tree and decoded value of generated typed values with the model, and the executed steps of real run/delete histories over chains of checkpoints with the model plan.',
+   note='json text layer, Decimal str/constructor and isodate are assumed to round-trip (leaf parameters); sub-second parts are outside the proved domain (listed finding); user objects carrying tag keys are outside the domain',
+   ref='6/C07'),
+ 'C08': dict(
+   technique='Lean 4 proof (every proper prefix of the writer effect log leaves the final name absent; complete log leaves exactly the stream) + fs-trace correspondence + real SIGKILL before every file operation',
+   text='C08_prefix_unusable / C08_complete_when_usable / C08_next_run_equal hold for every number of resources and rows and any non-empty temporary suffix (read live). The effect list of the model is compared with the intercepted file operations of the real writer; the real child is killed (SIGKILL) before every operation and an exception is injected at every row, and after each the next run must recompute and return the uninterrupted result.',
+   note='rename(2) atomic; process death, not power loss; Python-level interception of open/write/flush/close/rename in a child process (strace not needed)',
+   ref='6/C08'),
  'C10': dict(
    technique='Lean 4 proof (matcher = specification for every regex oracle; frame theorem for every mapSel processor) + step correspondence + frame oracle on real code',
    text='Theorems C10_matcher_spec / C10_frame_* hold for all packages, selectors and regex oracles; the model is tied to the code by the step correspondence (real processor vs compiled model on generated packages) and the frame property is re-checked on the real output of every selector-taking processor.',
@@ -35,6 +45,11 @@ CLAIMED = {
    text='For every cast function, table, number and position of bad values: drop = filter+cast, ignore/clear keep all rows, custom handlers by truthiness, raise aborts at the first bad row with its absolute index, emitted values are casts; tied to the code by the validate correspondence with the real cast_value outcomes and re-checked directly on real set_type/validate runs.',
    note='Field.cast_value is a parameter (its outcomes are supplied per case); field names of the schema assumed distinct; field-name patterns with a top-level alternation are not generated (their anchoring is not pinned by the property)',
    ref='6/C14'),
+ 'C19': dict(
+   technique='Lean 4 proof (descriptor effects come after all data-file effects; any prefix with a descriptor present has all data files complete) + fs-trace correspondence + real SIGKILL before every file operation of real dumps',
+   text='C19_descriptor_last / C19_prefix_safe for any number of resources and chunks; the model effect order is compared with the intercepted operations of the real dump_to_path, and the real child is killed before every operation in the output directory (copies forced into 48-byte chunks): whenever datapackage.json parses, every listed file must exist with recorded size and md5.',
+   note='a killed process performs no further effects; writes to one file take effect in order; temp files outside the output directory are not observable',
+   ref='6/C19'),
  'C15': dict(
    technique='Lean 4 proof (lockstep invariants of delete/select/add/rename) + step correspondence + lockstep oracle',
    text='Lockstep (row keys = declared fields), value preservation and order rules proved for every table and every regex oracle; correspondence ties the model to the code; the lockstep property is checked directly on real outputs incl. add_computed_field and find_replace.',
